@@ -59,7 +59,7 @@ func c09RunHist(c *Ctx) {
 	c.Step("start form=%s set=%v", bm.Form, descSet(m))
 	h := m.Hash()
 	for i := 0; i < 60 && !c.Failed(); i++ {
-		op := mutateStep(c, bm, MutOpts{Light: true, NoClone: true, OnlyOps: []string{"AddRange", "RemoveRange", "Flip", "Add", "Remove", "CheckedRemove", "CheckedAdd", "AddMany", "RunOptimize"}})
+		op := mutateStep(c, bm, MutOpts{Light: true, NoClone: true, OnlyOps: []string{"AddRange", "RemoveRange", "Flip", "Add", "Remove", "CheckedRemove", "CheckedAdd", "AddMany", "RunOptimize", "TrimEnds"}})
 		if c.Failed() {
 			return
 		}
